@@ -143,6 +143,14 @@ def program(seed, variant, layout=0):
     z = (t3 * t3).sum() + (x * t1).sum()
     z.backward(); add(x.grad.data)
     for k in range(6): add(w[k].grad.data)
+    # optimizers at the edge of their argument space: eps = 0 with an entry whose gradient is exactly 0 at every step (0/0 in the
+    # update: whatever the rule answers there, it has to answer it every time)
+    for O in (optim.Adam, optim.AdamW):
+        q = sg.Tensor(np.array([1.0, 2.0, 3.0, -1.0, 0.5], dtype=np.float32), requires_grad=True)
+        o = O([q], lr=0.1, eps=0.0)
+        msk = sg.Tensor(np.array([1.0, 0.0, 2.0, 0.0, 0.0], dtype=np.float32))
+        for _ in range(2):
+            o.zero_grad(); (q * msk).sum().backward(); o.step(); add(q.data)
     return h.hexdigest()
 '''
 
